@@ -112,6 +112,16 @@ def check(ctx: Ctx) -> str:
     ctx.check("name.encode(" in s and "filename" in s, "key:inputs", "bccache:BytecodeCache.get_cache_key", "key inputs", "the cache key must depend on the template name and file name", gk.loc())
     gs = repo.func("bccache:BytecodeCache.get_source_checksum")
     ctx.check("source.encode(" in ast.unparse(gs.node), "checksum:inputs", "bccache:BytecodeCache.get_source_checksum", "checksum inputs", "the checksum must be computed from the current source", gs.loc())
+    # injectivity up to the hash: the digest input is the source parameter itself, encoded -
+    # any normalisation applied first makes distinct sources share a checksum, and stale
+    # bytecode is accepted for an edited template
+    rebinds = [a for a in ast.walk(gs.node) if isinstance(a, (ast.Assign, ast.AugAssign, ast.AnnAssign)) and any(isinstance(t_, ast.Name) and t_.id == "source" for t_ in (a.targets if isinstance(a, ast.Assign) else [a.target]))]
+    hashed = [c.args[0] for c in astq.calls(gs.node) if astq.callee(c) in ("sha1", "hashlib.sha1", "sha256", "hashlib.sha256") and c.args]
+    hashed += [c.args[0] for c in astq.calls(gs.node) if astq.attr_tail(c) == "update" and c.args]
+    exact = bool(hashed) and all(isinstance(h, ast.Call) and isinstance(h.func, ast.Attribute) and h.func.attr == "encode" and isinstance(h.func.value, ast.Name) and h.func.value.id == "source" for h in hashed)
+    ctx.check(exact and not rebinds, "checksum:exact-source", "bccache:BytecodeCache.get_source_checksum", f"digest input {[ast.unparse(h) for h in hashed]}, source rebound {len(rebinds)}x",
+              f"the checksum must hash the unmodified source (`source.encode(...)`); found digest inputs {[ast.unparse(h) for h in hashed]} and {len(rebinds)} rebinding(s) of `source` ({[ast.unparse(r)[:60] for r in rebinds]}): sources that differ only in what the normalisation removes share a checksum, so the bytecode of the old source is loaded for the new one",
+              gs.loc(), detail={"hashed": [ast.unparse(h) for h in hashed]})
     gbs = ast.unparse(gb.node)
     ctx.check("self.get_source_checksum(source)" in gbs and "self.load_bytecode(bucket)" in gbs, "get_bucket:current-source", "bccache:BytecodeCache.get_bucket", "checksum of current source",
               "get_bucket must checksum the *current* source and then load", gb.loc())
